@@ -90,12 +90,17 @@ def worker(task):
         rng = random.Random(f"c08-{seed}-{idx}")
         transient = rng.random() < 0.2
         ov = {"storage_layout": "generic"} if rng.random() < 0.4 else {}
-        case = storagegen.make_storage_case(rng, transient=transient, overrides=ov)
+        if rng.random() < 0.12:
+            case = storagegen.make_transient_pair_case(rng, overrides=ov)
+            res["counters"]["transient_two_account_programs"] += 1
+        else:
+            case = storagegen.make_storage_case(rng, transient=transient, overrides=ov)
         res["features"]["layout:" + ov.get("storage_layout", "solidity")] += 1
         for f in case.gen_features:
             res["features"]["gen:" + f] += 1
         ins = storagegen.domain_inputs(rng, case, n=8)
-        r = diffcore.diff_case(case, rng, res, n_random=0, n_models=1, extra_inputs=ins, judge_c01=True, judge_c02=True)
+        # inputs come from the colliding domains only: indices >= 2^64 are outside the documented hash-offset assumption
+        r = diffcore.diff_case(case, rng, res, n_random=0, n_models=0, extra_inputs=ins, judge_c01=True, judge_c02=True)
         if r is None:
             continue
         res["counters"]["storage_programs"] += 1
@@ -127,7 +132,7 @@ def main():
     run.rule = ("store/load sequences over generated location expressions {scalar, mapping, nested mapping, array element, struct field, packed key} x ways "
                 "{runtime sha3, precomputed constant, constant-folded base+offset, reordered additions}; keys in {0,1,2}, indices in {0,1,2,2^16-1,2^16,2^16+1}; "
                 "both storage layouts; transient storage over two transactions; non-trivial = distinct program in which two different location specifications denote the same slot under at least one tested valuation")
-    run.assumptions = ["real keccak via pysha3", "hash range / injectivity", "scalar slots and hash-derived slots never collide (Solidity layout)"]
+    run.assumptions = ["real keccak via pysha3", "hash range / injectivity", "array indices / struct offsets < 2^64 (no wrap-around past a hash)", "scalar slots and hash-derived slots never collide (Solidity layout)"]
     if run.replay:
         import c01
 
@@ -169,6 +174,7 @@ def main():
     run.require("path_input_pairs", 1500)
     run.require("storage_programs", 200)
     run.require("programs_with_collisions", 30)
+    run.require("transient_two_account_programs", 10)
     for need in ("gen:shape:array", "gen:shape:nested-mapping", "gen:shape:packed-key", "gen:way:precomputed-constant", "gen:way:reordered-additions", "gen:boundary-slot", "layout:generic"):
         if run.features.get(need, 0) < 10:
             run.inconclusive.append(f"feature {need} seen {run.features.get(need, 0)} < 10 times")
